@@ -39,9 +39,51 @@ Fixpoint returns (b : sblk) : list Z :=
   | STry t h r => returns t ++ returns h ++ returns r
   end.
 
+(** guards the skeleton evaluates *)
+Fixpoint su_guards (b : sblk) : list guard :=
+  match b with
+  | SDone | SReturn _ => []
+  | SCall _ r | SSetAbort r | SOpq _ r => su_guards r
+  | SIf c t e r => (match c with CGuard g => [g] | COpq _ => [] end) ++ su_guards t ++ su_guards e ++ su_guards r
+  | STry t h r => su_guards t ++ su_guards h ++ su_guards r
+  end.
+
 Section SU.
   Variable K : kern.
   Notation st := (st K).
+
+  (** the set-up reads of the configuration only what its guards read *)
+  Lemma sexec_cfg sig ev c1 c2 b : forall inh, su_chk inh b = true ->
+    (forall g (s : st), In g (su_guards b) -> gval c1 s g = gval c2 s g) ->
+    forall (s : st), sexec sig ev c1 b s = sexec sig ev c2 b s.
+  Proof.
+    assert (Hc : forall c (s : st), su_call_ok c = true -> exec sig c1 c s = exec sig c2 c s)
+      by (intros c s H; destruct c; try discriminate H; reflexivity).
+    induction b as [|c r IH|r IH|z|n r IH|c t IHt e IHe r IHr|t IHt h IHh r IHr]; intros inh Hk Hg s; cbn [sexec su_chk su_guards] in *; auto.
+    - apply andb_true_iff in Hk. destruct Hk as [H1 H2]. rewrite (Hc c s H1). eapply IH; eauto.
+    - apply andb_true_iff in Hk. destruct Hk as [H1 H2]. eapply IH; eauto.
+    - destruct (thr ev n); auto. eapply IH; eauto.
+    - repeat (apply andb_true_iff in Hk; destruct Hk as [Hk ?]).
+      assert (Gt : forall s, sexec sig ev c1 t s = sexec sig ev c2 t s)
+        by (intros s0; eapply IHt; eauto; intros g s1 Hi; apply Hg; rewrite !in_app_iff; auto).
+      assert (Ge : forall s, sexec sig ev c1 e s = sexec sig ev c2 e s)
+        by (intros s0; eapply IHe; eauto; intros g s1 Hi; apply Hg; rewrite !in_app_iff; auto).
+      assert (Gr : forall s, sexec sig ev c1 r s = sexec sig ev c2 r s)
+        by (intros s0; eapply IHr; eauto; intros g s1 Hi; apply Hg; rewrite !in_app_iff; auto).
+      destruct c as [g|n].
+      + rewrite (Hg g s) by (left; reflexivity). destruct (gval c2 s g); [rewrite Gt | rewrite Ge];
+          match goal with |- context [match ?x with _ => _ end] => destruct x end; auto.
+      + destruct (thr ev n); auto. destruct (cnd ev n); [rewrite Gt | rewrite Ge];
+          match goal with |- context [match ?x with _ => _ end] => destruct x end; auto.
+    - repeat (apply andb_true_iff in Hk; destruct Hk as [Hk ?]).
+      assert (Gt : forall s, sexec sig ev c1 t s = sexec sig ev c2 t s)
+        by (intros s0; eapply IHt; eauto; intros g s1 Hi; apply Hg; rewrite !in_app_iff; auto).
+      assert (Gh : forall s, sexec sig ev c1 h s = sexec sig ev c2 h s)
+        by (intros s0; eapply IHh; eauto; intros g s1 Hi; apply Hg; rewrite !in_app_iff; auto).
+      assert (Gr : forall s, sexec sig ev c1 r s = sexec sig ev c2 r s)
+        by (intros s0; eapply IHr; eauto; intros g s1 Hi; apply Hg; rewrite !in_app_iff; auto).
+      rewrite Gt. destruct (sexec sig ev c2 t s); auto. rewrite Gh. destruct (sexec sig ev c2 h s0); auto.
+  Qed.
 
   (** the flag is never cleared: set before or signalled at a point passed => set afterwards *)
   Definition flagmono (sig : Z -> bool) (s s' : st) : Prop :=
